@@ -229,6 +229,8 @@ def run(c, chk):
     else:
         chk.ok('R19.6', 'writers of cfg->pff', 'cfg_set_print_filter_func() only')
 
+    filter_setter(c, chk)
+    layout_by_type(c, chk)
     indent_writer(c, chk)
     builtin_formatter(c, chk)
     chk.rule('R19.8', 'a print callback registered by name lands on the option the printer will visit: the name is resolved by cfg_getopt(), not by the schema-template walker')
@@ -459,6 +461,75 @@ def indent_writer(c, chk):
 def fp_is_null(cn, t):
     from .. import failpaths as _fp
     return _fp.is_null_assumption(cn, t)
+
+
+def filter_setter(c, chk):
+    """R19.6 (second half): "the effective filter": what the application sets is what is in effect - also "none".  The setter
+    stores its argument on every path that has a context: refusing NULL would make a filter impossible to remove"""
+    fn = c.need('cfg_set_print_filter_func')
+    ex = sym.Explorer(c.modules, max_visits=2, mod_sets=c.mod_sets, max_paths=5000)
+    n = 0
+    bad = None
+    for p in ex.explore(fn):
+        if p.end != 'ret':
+            continue
+        nocfg = any((lambda na: na is not None and na[0] == ('p', 'cfg') and na[1])(fp_is_null(cn, t)) for cn, t, _ in p.assume)
+        if nocfg:
+            continue
+        n += 1
+        st = [e for e in p.events if e.kind == 'store' and e.field == 'pff' and sym.root_of(e.addr) == ('p', 'cfg')]
+        if not st or st[-1].val != ('p', 'pff'):
+            bad = bad or p
+    if bad is not None:
+        from .. import failpaths as _fp
+        chk.fail('R19.6', 'filter-not-stored', c.where(fn), 'cfg_set_print_filter_func() can return without having stored its argument in the context (%s): a filter, once set, '
+                 'cannot be taken away again (NULL means "no filter of its own: inherit")' % _fp.cond_text(bad, 3))
+    elif n:
+        chk.ok('R19.6', 'cfg_set_print_filter_func: %d paths with a context' % n, 'each stores the argument, NULL included')
+    chk.floor('R19.6 paths of the filter setter', n, 1)
+
+
+def layout_by_type(c, chk):
+    """R19.5 (completeness): an option that can hold a value is written as "name=value" / "name = {...}" (commented out when
+    it has none).  The bare layout - only what a print callback writes, no name - is for the two kinds that never hold a
+    value: functions and CFGT_NONE.  Every path that writes it has established that the type is one of those two"""
+    from .. import outmodel
+    enum = c.confuse.enums.get('cfg_type_t') or {}
+    byname = {k.replace('CFGT_', ''): v for k, v in enum.items()}
+    valueless = {byname.get('FUNC'), byname.get('NONE')}
+    others = set(enum.values()) - valueless
+    op = c.need('cfg_opt_print_pff_indent')
+    ex = sym.Explorer(c.modules, max_visits=2, mod_sets=c.mod_sets, max_paths=100000)
+    n = 0
+    bad = None
+    for p in ex.explore(op):
+        if p.end != 'ret':
+            continue
+        toks = outmodel.tokens(p.events, calls=('indirect:',))
+        text, _ = outmodel.render(toks)
+        if '%s' in text or not any(t[0] == 'call' and t[1] == 'indirect:pf' for t in toks):
+            continue          # the name is written, or nothing is written through the callback
+        n += 1
+        ok = False
+        excluded = set()
+        for cn, t, _ in p.assume:
+            if cn[0] == 'icmp' and cn[1] in ('eq', 'ne') and sym.is_const(cn[3]) and sym.mentions(cn[2], lambda v: v[0] == 'fld' and len(v) > 3 and v[3] == 'type'):
+                if ((cn[1] == 'eq') == t) and cn[3][1] in valueless:
+                    ok = True
+                if ((cn[1] == 'ne') == t):
+                    excluded.add(cn[3][1])
+            if cn[0] == 'switch-default' and sym.mentions(cn[1], lambda v: v[0] == 'fld' and len(v) > 3 and v[3] == 'type'):
+                excluded |= set(p.neq.get(cn[1], ()))
+        if not ok and not (others <= excluded):
+            bad = bad or (p, sorted(others - excluded))
+    if bad is not None:
+        p, left = bad
+        names = {v: k for k, v in enum.items()}
+        chk.fail('R19.5', 'bare-layout-for-value-type', c.where(op), 'the per-option printer writes only the callback output, without the option name, on a path where the type can still be %s: '
+                 'an option of that type loses its "name=" / "name = {...}" layout (and is not written at all without a callback)' % ', '.join(names.get(x, str(x)) for x in left))
+    elif n:
+        chk.ok('R19.5', 'bare callback layout: %d paths' % n, 'only for CFGT_FUNC / CFGT_NONE')
+    chk.floor('R19.5 paths with the bare callback layout', n, 1)
 
 
 def builtin_formatter(c, chk):
